@@ -183,6 +183,11 @@ class LoopInv:
     def inv(self, I, fr, i, it):
         return ()
 
+    def at_exit(self, I, fr, it):
+        """state changes the iteration protocol itself performs when the loop ends (e.g. an iterator object that
+        resets itself on StopIteration)"""
+        return None
+
     def step_lemmas(self, I, fr, i, it):
         """instances of lemma-library facts (e.g. the unfolding CNT(B, i+1) = CNT(B, i) + [B i]) needed
         to carry the invariant from i to i+1"""
